@@ -551,6 +551,13 @@ Section TemplateLaws.
   Proof. intros Hnin H. apply executed_are_packaged in H. tauto. Qed.
 End TemplateLaws.
 
+(** Rendering is a function of (context value, file map content): the same context and any
+    enumeration of the same files give the same result, render after render. *)
+Theorem render_stage_pure {C : Type} is_template strip (exec : C -> N -> filelist -> option N) context fs fs' :
+  Permutation fs fs' -> NoDup (map fst fs) ->
+  render_stage is_template strip exec context fs = render_stage is_template strip exec context fs'.
+Proof. intros Hp Hnd. unfold render_stage. now apply templates_order_independent. Qed.
+
 (** The two former witnesses under the fixed stage: one result for both enumerations (a.yaml gets
     the packaged b.yaml), and the double-suffix package simply renders. *)
 Example fixed_witness_values :
